@@ -535,14 +535,16 @@ func genPPTX(t *rapid.T) PCase {
 	}
 	if n > 1 {
 		for i, m := 0, vrInt(t, "missing", 0, 5)-3; i < m && i < n-1; i++ {
-			d.Slides[rapid.IntRange(0, n-1).Draw(t, "missingIdx")].Missing = true
+			sl := &d.Slides[rapid.IntRange(0, n-1).Draw(t, "missingIdx")]
+			sl.Missing = true
+			sl.Dangling = rapid.Bool().Draw(t, "dangling") // unreadable because the relationship itself is absent
 		}
 		all := true
 		for _, s := range d.Slides {
 			all = all && s.Missing
 		}
 		if all {
-			d.Slides[0].Missing = false
+			d.Slides[0].Missing, d.Slides[0].Dangling = false, false
 		}
 	}
 	pptxw.GenPhysical(t, &d)
@@ -564,6 +566,7 @@ func metaPPTX(c PCase) vr.Meta {
 	flags := map[string]bool{}
 	for _, s := range c.Deck.Slides {
 		flags["pptx:missing-part"] = flags["pptx:missing-part"] || s.Missing
+		flags["pptx:dangling-rid"] = flags["pptx:dangling-rid"] || s.Dangling
 		flags["pptx:notes"] = flags["pptx:notes"] || s.Notes != nil
 		flags["pptx:absolute-target"] = flags["pptx:absolute-target"] || s.AbsTarget
 		flags["pptx:renamed-part"] = flags["pptx:renamed-part"] || !strings.HasPrefix(s.Part, "ppt/slides/slide")
